@@ -199,10 +199,13 @@ COMPOUND_SKY = 'regions/core/compound.py::CompoundSkyRegion'
 
 @contract(COMPOUND_SKY, props=['C06', 'C08', 'C16'])
 class compound_sky_constructor_keeps_meta:
-    cases = {'given': {'given': True}, 'default': {'given': False}}
+    cases = {'given': {'given': True}, 'default': {'given': False}, 'empty': {'given': 'empty'}}
 
     def setup(B, given=True):
         r1, r2 = sky_region(B, 'circle', 'r1'), sky_region(B, 'circle', 'r2')
+        if given == 'empty':
+            # an explicitly supplied empty meta / visual is a value like any other; only None means "take region1's"
+            return dict(region1=r1, region2=r2, operator=operator_of('or_'), meta=B.meta(META, 'm'), visual=B.meta(VISUAL, 'v'), given=True)
         return dict(region1=r1, region2=r2, operator=operator_of('or_'),
                     meta=rich_meta(B, 'm') if given else None, visual=rich_visual(B, 'v') if given else None, given=given)
     post = {
@@ -233,4 +236,40 @@ class compound_sky_contains:
                              == bool(self.meta.get('include', True))),
         'equals_pixel_compound_of_the_images': lambda self, skycoord, wcs, result:
             bool(result) == bool(self.to_pixel(wcs).contains(pixcoord_of(wcs, skycoord))),
+    }
+
+
+def _contains_after_update(self, sc, wcs, what, new, newc):
+    first = self.contains(sc, wcs)
+    if what == 'size':
+        if hasattr(self, 'radius'):
+            self.radius = new
+        else:
+            self.width = new
+    elif what == 'center':
+        self.center = newc
+    elif what == 'include':
+        self.meta['include'] = not self.meta.get('include', True)
+    return (first, self.contains(sc, wcs))
+
+
+@contract('regions/core/core.py::SkyRegion.contains', props=['C06', 'C13'])
+class sky_contains_follows_updates:
+    """the answer describes the region as it is now: a second query after a parameter / meta update agrees with the pixel image of the
+    updated region (no stale projection is reused)"""
+    cases = {k + '-' + w: {'kind': k, 'what': w} for k in ('circle', 'ellipse') for w in ('size', 'center', 'include')}
+
+    def setup(B, kind='circle', what='size'):
+        r = sky_region(B, kind, 'r', simple=True)
+        wcs = B.wcs('w')
+        newc = sky(B, 'newc')
+        nondegenerate_sky(B, wcs, r.center)
+        nondegenerate_sky(B, wcs, newc)
+        return dict(self=r, sc=sky(B, 'q'), wcs=wcs, kind=kind, what=what, new=B.quantity('new', 'arcsec'), newc=newc)
+    pre = lambda self, kind, new: sky_wf(kind, self) and new.to_value('rad') > 0
+    call = lambda self, sc, wcs, what, new, newc: _contains_after_update(self, sc, wcs, what, new, newc)
+    modifies = ('r',)
+    post = {
+        'second_answer_is_for_the_updated_region': lambda self, sc, wcs, result:
+            bool(result[1]) == bool(self.to_pixel(wcs).contains(pixcoord_of(wcs, sc))),
     }
